@@ -153,3 +153,8 @@ def finding_key(cex):
     if cex.get("perm") and a + b == 0:
         return "uncharged:get_deltaMax(True) returns no permutant"
     return "comp:%d,%d,%d%s" % (a, b, len(seq), ":perm" if cex.get("perm") else "")
+
+
+def fallback(item):
+    pre = std_prelude(item["N"], item["npos"], item["nneg"])
+    return [dict(seq=q, prelude=pre) for q in fallback_seqs(item, 3)] + ([dict(seq=q, perm=True, prelude=pre) for q in fallback_seqs(item, 3)] if item.get("perm") else [])
